@@ -134,7 +134,8 @@ def incr_in_range(lines, l0, l1):
 
 def make_copy():
     d = tempfile.mkdtemp(prefix="vneutral_", dir="/tmp")
-    subprocess.run(["rsync", "-a", "--exclude", "*.inc", "/repo/opm", "/repo/msim", d + "/"], check=False, stderr=subprocess.DEVNULL)
+    # committed sources (HEAD), so that a seed patch temporarily applied to /repo's working tree cannot leak into the copy
+    subprocess.run("git -C /repo archive HEAD opm msim | tar -x -C %s" % d, shell=True, check=False, stderr=subprocess.DEVNULL)
     return d
 
 
@@ -177,6 +178,11 @@ def main():
     os.remove(anch)
     mod = __import__("rules." + a.pid, fromlist=["x"])
     units = getattr(mod, "UNITS", None)
+    if not units:
+        try:
+            units = json.load(open(os.path.join(VERIF, "evidence", a.pid + ".json")))["coverage"]["units_parsed"]
+        except Exception:
+            units = None
     want_q = set(x[0] for x in d["touched"]) | set(d["instance_functions"])
     chk = core.Check(a.pid, "quick")
     all_units = units if units and len(units) <= 12 else sorted({u for u in core.library_units()})
